@@ -49,9 +49,9 @@ CHECKS = {
     engine="BgzfReader"),
  "C03": dict(
     category="model_checking", design_ref="DESIGN.md §5 C03, §4.2",
-    text="Transparency is ReaderP having no cache: SetCache is a no-op. ReaderI with a policy-free cache of capacity 1-2 (over-approximating LRU/FIFO/Random) is checked by TLC for every schedule: data identity, no stale cache mapping, no panic, no deadlock, no goroutine left after Close (up to 71M states in the thorough tier). Every history is run on the real reader uncached and then with caches attached/replaced/removed at arbitrary points; the cached run must satisfy ReaderP and be reply-for-reply identical to the uncached run.",
-    note="As C02. Five reader defects were found this way and repaired (KNOWN_FINDINGS.txt); the repaired protocol was model-checked on ReaderI before the commits.",
-    technique="TLA+ P-spec/I-spec with policy-free cache, TLC exhaustive schedules + TLC trace validation of cached vs uncached runs",
+    text="Transparency is ReaderP having no cache: SetCache is a no-op. ReaderI with a policy-free cache of capacity 1-2 (over-approximating LRU/FIFO/Random) is checked by TLC for every schedule: data identity, no stale cache mapping, no panic, no deadlock, no goroutine left after Close (up to 71M states in the thorough tier). Every history is run on the real reader uncached and then with caches attached/replaced/removed at arbitrary points; the cached run must satisfy ReaderP and be reply-for-reply identical to the uncached run. ReaderI also covers caches whose Get keeps used blocks (cache.FIFO) and caches that arrive holding another reader's blocks; its as-coded variant (cacheSwap returning early on another reader's block) must be rejected by TLC. ReaderI is bound to the code twice more: hook traces of the real reader (every hook point of reader.go, every cache operation) are validated against ReaderI itself (ReaderITrace; a mismatch is MODEL-DRIFT), and behaviours of ReaderI printed by TLC in simulation mode (ReaderSched) are replayed on the real reader, whose goroutines are held at the hook points until the schedule says it is their turn; the API traces of those runs are judged by ReaderP.",
+    note="As C02. Seven reader/cache defects were found this way and repaired (KNOWN_FINDINGS.txt), the last one by the thorough tier (a shared FIFO cache); the repaired protocol was model-checked on ReaderI. A schedule replay follows its schedule only as far as the real cache agrees with the model's policy-free one (follow rates are in the evidence).",
+    technique="TLA+ P-spec/I-spec with policy-free cache, TLC exhaustive schedules + TLC trace validation of cached vs uncached runs + hook-trace conformance of the I-spec + TLC-generated schedules replayed through blocking hooks",
     engine="BgzfReader"),
  "C09": dict(
     category="fault_enumeration", design_ref="DESIGN.md §5 C09",
@@ -164,7 +164,7 @@ ENGINES = [
  dict(name="Fai", path="spec/Fai", serves_properties=["C19"], kind_free_text="TLA+ Fai (FaiP/FaiI) + TLC MC + trace validation"),
  dict(name="BinIndex", path="spec/BinIndex", serves_properties=["C04", "C15"], kind_free_text="TLA+ IndexP/IndexI + TLC MC + trace validation"),
  dict(name="Coord", path="spec/Coord", serves_properties=["C16", "C04"], kind_free_text="TLA+ Cigar/Bins + TLC lemmas + trace validation"),
- dict(name="BgzfReader", path="spec/BgzfReader", serves_properties=["C01", "C02", "C03", "C09", "C10", "C13"], kind_free_text="TLA+ ReaderP/ReaderI + TLC MC + API trace validation"),
+ dict(name="BgzfReader", path="spec/BgzfReader", serves_properties=["C01", "C02", "C03", "C09", "C10", "C13"], kind_free_text="TLA+ ReaderP/ReaderI + TLC MC + API trace validation + hook-trace conformance (ReaderITrace) + schedule generation and replay (ReaderSched)"),
  dict(name="BgzfWriter", path="spec/BgzfWriter", serves_properties=["C01", "C08", "C09", "C12"], kind_free_text="TLA+ WriterP/WriterI/WriterPlan + TLC MC + API trace validation"),
  dict(name="BlockCache", path="spec/BlockCache", serves_properties=["C14", "C03"], kind_free_text="TLA+ CacheP/CacheI/CacheLin + TLC MC + trace validation + linearizability search"),
  dict(name="Tf8", path="spec/Tf8", serves_properties=["C20"], kind_free_text="TLA+ bit-layout spec + TLC MC + trace validation + exported-table sweep"),
